@@ -128,10 +128,10 @@ def sym(ctx, cfg):
                     if int(f2) == fid:
                         props.append(("file%d_row%d_model_never_saw_its_spectrum(row %d)" % (fid, r, j), z3.Not(brewlib.key_eq(s, r, j))))
     if cfg.get("calibrate"):
-        # calibration is applied once per fold, on exactly that fold's rows (all files being separate calls)
-        props.append(("calibration_calls", z3.BoolVal(len(cal.calls) == folds * len(syms))))
-        for ci, (ins, tg, outs) in enumerate(cal.calls):
-            fid, k = ci // folds, ci % folds
+        # calibration is applied once per non-empty fold, on exactly that fold's rows (every file separately)
+        expected_calls = [(fid, k) for fid, s in enumerate(syms) for k in range(folds) if any(s["foldof"].get(r) == k for r in range(s["n"]))]
+        props.append(("calibration_calls", z3.BoolVal(len(cal.calls) == len(expected_calls))))
+        for ci, ((ins, tg, outs), (fid, k)) in enumerate(zip(cal.calls, expected_calls)):
             s = syms[fid]
             rows = sorted(r for r in range(s["n"]) if s["foldof"].get(r) == k)
             want = {z3.Real("score_m%s_f%s_r%d" % (k + 1, fid, r)).get_id() for r in rows}
